@@ -769,6 +769,7 @@ class Gen:
         if used >= 1 and r.rand() < 0.35:
             case["block_length"] = int(r.randint(1, min(4, used) + 1))
         case["nt"] = int(self.choice([1, 1, 1, 1, 2, 3]))
+        case["ext"] = self.choice([None, None, None, "dist.cur", "rdf", "x.y"])
         case["used"] = [start - 1, start - 1 + used]    # 0-based half-open
 
         # ---- frames --------------------------------------------------------
@@ -894,6 +895,8 @@ def command(case, exe):
         cmd += ["--nframes", str(case["nframes"])]
     if case["nt"] != 1:
         cmd += ["--nt", str(case["nt"])]
+    if case.get("ext"):
+        cmd += ["--ext", case["ext"]]
     return cmd
 
 
@@ -945,13 +948,14 @@ def judge_case(case, files, workdir, J):
         vols.append(float(box[0] * box[1] * box[2]))
     info = {"frames_used": len(used), "min_margin": minmargin}
     L = case["block_length"]
+    ext = case.get("ext") or "dist.new"
     blocks = []
     if L:
         nblk = len(used) // L
         for k in range(nblk):
-            blocks.append(("_%d.dist.new" % (k + 1), k * L, (k + 1) * L))
+            blocks.append(("_%d.%s" % (k + 1, ext), k * L, (k + 1) * L))
     else:
-        blocks.append((".dist.new", 0, len(used)))
+        blocks.append(("." + ext, 0, len(used)))
     nonempty = 0
     volume_varies = len(set(vols)) > 1
     for (suffix, f0, f1) in blocks:
@@ -1147,6 +1151,7 @@ def witness_of(case, files, cmd):
     w = {k: case[k] for k in ("fmt", "mapped", "include_intra", "do_imc",
                               "block_length", "first_frame", "nframes", "nt",
                               "used")}
+    w["ext"] = case.get("ext")
     w["cmd"] = " ".join(["csg_stat"] + cmd[1:])
     w["files"] = files
     w["case"] = {k: v for k, v in case.items() if k != "trj_text"}
@@ -1227,6 +1232,23 @@ def worker(args):
             cnt("cases_volume_varies")
         if case["nt"] > 1:
             cnt("cases_nt_gt_1")
+            if case["do_imc"]:
+                cnt("cases_nt_gt_1_with_do_imc")
+        if case.get("ext"):
+            cnt("cases_ext_option")
+        if case["include_intra"]:
+            # cross-type pair interaction with both types inside one molecule
+            # (pairs that only --include-intra counts)
+            v_ = CGView(case)
+            for it_ in case["interactions"]:
+                if it_["class"] == "pair" and it_["type1"] != it_["type2"] and \
+                        "*" not in (it_["type1"], it_["type2"]):
+                    a_ = v_.types == it_["type1"]
+                    b_ = v_.types == it_["type2"]
+                    m_ = (a_[:, None] & b_[None, :]) & v_.excl
+                    if m_.any():
+                        cnt("cases_include_intra_cross_type_excluded_pairs")
+                        break
         if info["min_margin"] < 10 * EDGE_BAND:
             cnt("cases_with_a_value_within_1e-5_of_a_bin_edge")
         for (key, what, det) in J.fail:
@@ -1239,7 +1261,8 @@ def worker(args):
         if len(samples) < 2 and nontrivial:
             it = case["interactions"][0]
             fn = os.path.join(wd, it["name"] + (
-                "_1.dist.new" if case["block_length"] else ".dist.new"))
+                "_1." if case["block_length"] else ".") +
+                (case.get("ext") or "dist.new"))
             s = {"cmd": " ".join(["csg_stat"] + cmd[1:]), "seed": cseed,
                  "beads": int(CGView(case).n), "frames_used": info["frames_used"],
                  "interaction": it}
